@@ -65,6 +65,11 @@ func checkC07(c *Ctx, r *Report) {
 		r.instance("R7.6", copyItems(tmp, r, "R2.1", "R7.6")+copyItems(tmp, r, "R2.6", "R7.6"))
 		r.floor("R7.6", 20)
 	}
+	// ---- R7.10: the client reads from the very connection the dialer returned: Connect stores the
+	// dial result itself (a wrapper defined in between could deliver bytes and errors differently
+	// from the transport) and only after its error was found nil (C08 R8.7)
+	connectStores(c, r, "R7.10")
+	r.floor("R7.10", 1)
 	// ---- R7.9: whatever reaches the reply dispatchers comes back as a reply or as an error, never
 	// as neither (a truncated frame must not be reported as success without a reply) (C02 R2.7)
 	c02NeverNeither(c, r, "R7.9")
@@ -339,6 +344,9 @@ func c07Loop(c *Ctx, r *Report, ci *clientInfo, control bool) map[string]bool {
 		}
 		st := fr.edge[[2]int{p.Index, hdr.Index}]
 		okk := expOK && st.entails(atomLT(sum, expected))
+		if debugTrace {
+			println("R7.2 backedge", len(st), expected.String(), sum.String(), truncate(st.String(), 1500))
+		}
 		rep("R7.2", okk, "another Read is attempted only while fewer than expectedLen bytes have been received", truncate(st.String(), 300), "continues-when-complete", c.pos(p.Instrs[len(p.Instrs)-1].Pos()))
 	}
 	rep("R7.2", nsucc == 1, "do has exactly one success return", fmt.Sprintf("%d", nsucc), "success-returns", c.pos(ci.do.Pos()))
